@@ -1,9 +1,29 @@
 /-
   C10 — Option spelling follows the generation mode, nested mode and dash variant.
-  Theorems about `SpVerif.Model.Naming` (mirrors FieldWrapper.option_strings).
+  Theorems about `SpVerif.Model.Naming` (mirrors FieldWrapper.option_strings), composed with
+  `Model.Fields.tableOf` (the table of actions of a dataclass) and `Model.Engine` (argparse's lookup).
+
+  Map (property clause → theorem):
+  * "the accepted options are exactly …"      c10_exact, c10_optionStrings_iff (after dedup + sort);
+      explicit lists: c10_underscore_{flat,nested,both}, c10_dash_{flat,nested}, c10_both_flat(_plain),
+      c10_one_letter_flat; WITHOUT_ROOT: c10_without_root
+  * "plus every declared alias"               c10_alias_{2dash,1dash}_kept, c10_alias_0dash (all 18 modes)
+  * DASH rewrites generated names only         c10_dash_alias_kept, c10_dash_option_no_underscore
+  * UNDERSCORE_AND_DASH: both spellings        c10_both_spellings, c10_both_{name,path}_spellings,
+      c10_alias_both_variant_{2dash,0dash}; open finding: AliasVariantKeepsDashes is FALSE
+      (c10_alias_variant_witness, c10_alias_variant_partial, c10_alias_1dash_variant_actual)
+  * "no other spelling is accepted"            c10_no_other_spelling(_eq) (any table),
+      c10_flat_no_other_spelling(_eq) (table of a dataclass, in terms of the rule),
+      c10_int_dataclass_no_other_spelling (no hypothesis left but the rule)
+  * "every accepted spelling sets the same field"  c10_spelling_sets_field, c10_same_field (any table;
+      both forms `o tok` / `o=tok`, built on C02.c02_engine_roundtrip),
+      c10_flat_spelling_sets_field, c10_int_dataclass_same_field; open finding: a field named `_`
+      registers the bare separator `--` (SeparatorFree is FALSE: c10_separator_witness,
+      c10_separator_partial, c10_same_field_separator_witness)
 -/
 import SpVerif.Model.Naming
 import SpVerif.Props.C04
+import SpVerif.Props.C02
 namespace SpVerif.C10
 open SpVerif
 
@@ -439,6 +459,1181 @@ example : runStrict []
       { opts := ["--a_b".toList], dest := "c.a_b".toList, kind := .store, nargs := .one, conv := .base .int,
         choices := none, required := false, default := some (.sc (.int 0)) } ] [0, 0]
     (["--a".toList, "3".toList]) = .ok [("c.a_b".toList, .sc (.int 3))] [] [0, 0] := by decide
+
+
+/-! ### Bridge: the strings handed to `add_argument` are exactly the rule's (review item 2) -/
+
+theorem mem_dedup' (l : List Str) (x : Str) : x ∈ dedup l ↔ x ∈ l := by
+  induction l with
+  | nil => simp [dedup]
+  | cons a r ih =>
+    simp only [dedup, List.mem_cons, List.mem_filter, ih]
+    constructor
+    · rintro (h | ⟨h, _⟩)
+      · exact Or.inl h
+      · exact Or.inr h
+    · rintro (h | h)
+      · exact Or.inl h
+      · by_cases hx : x = a
+        · exact Or.inl hx
+        · exact Or.inr ⟨h, by simpa using hx⟩
+
+theorem mem_insertByLen (x y : Str) (l : List Str) : y ∈ insertByLen x l ↔ y = x ∨ y ∈ l := by
+  induction l with
+  | nil => simp [insertByLen]
+  | cons z zs ih =>
+    simp only [insertByLen]
+    split
+    · simp
+    · simp only [List.mem_cons, ih]
+      constructor
+      · rintro (h | h | h)
+        · exact Or.inr (Or.inl h)
+        · exact Or.inl h
+        · exact Or.inr (Or.inr h)
+      · rintro (h | h | h)
+        · exact Or.inr (Or.inl h)
+        · exact Or.inl h
+        · exact Or.inr (Or.inr h)
+
+theorem mem_foldl_insertByLen (l acc : List Str) (y : Str) :
+    y ∈ l.foldl (fun acc x => insertByLen x acc) acc ↔ y ∈ acc ∨ y ∈ l := by
+  induction l generalizing acc with
+  | nil => simp
+  | cons x xs ih =>
+    simp only [List.foldl_cons, ih, mem_insertByLen, List.mem_cons]
+    constructor
+    · rintro ((h | h) | h)
+      · exact Or.inr (Or.inl h)
+      · exact Or.inl h
+      · exact Or.inr (Or.inr h)
+    · rintro (h | h | h)
+      · exact Or.inl (Or.inr h)
+      · exact Or.inl (Or.inl h)
+      · exact Or.inr h
+
+theorem mem_sortByLen (l : List Str) (y : Str) : y ∈ sortByLen l ↔ y ∈ l := by
+  unfold sortByLen
+  rw [mem_foldl_insertByLen]
+  simp
+
+/-- **bridge model → rule**: the option strings handed to `add_argument` (after the de-duplication
+    and the sort by length) are exactly the spellings the rule allows. -/
+theorem c10_optionStrings_iff (cfg : Cfg) (fw : FW) (hpos : fw.positional = false) (o : Str) :
+    o ∈ optionStrings cfg fw ↔ Spec cfg fw o := by
+  unfold optionStrings
+  simp only [hpos, Bool.false_eq_true, ↓reduceIte]
+  rw [mem_sortByLen, mem_dedup', c10_exact cfg fw hpos]
+
+
+/-! ### `--r=value` with an unknown `--r` is rejected too (review item 12) -/
+
+theorem splitEq_append (a b : Str) (h : '=' ∉ a) : splitEq (a ++ '=' :: b) = some (a, b) := by
+  induction a with
+  | nil => simp [splitEq]
+  | cons c cs ih =>
+    simp only [List.mem_cons, not_or] at h
+    have hc : c ≠ '=' := fun hh => h.1 hh.symm
+    simp only [List.cons_append, splitEq, hc, ↓reduceIte, ih h.2]
+
+theorem startsWith_append_self (a b : Str) : startsWith (a ++ b) a = true := by
+  induction a with
+  | nil => cases b <;> rfl
+  | cons c cs ih => simp [startsWith, ih]
+
+theorem startsWith_of_append (o a b : Str) (h : startsWith o (a ++ b) = true) :
+    startsWith o a = true := by
+  induction a generalizing o with
+  | nil => cases o <;> rfl
+  | cons c cs ih =>
+    cases o with
+    | nil => simp [startsWith] at h
+    | cons d ds =>
+      simp only [List.cons_append, startsWith, Bool.and_eq_true] at h ⊢
+      exact ⟨h.1, ih ds h.2⟩
+
+/-- `--r=v` where no option string has `--r` as a prefix is lexed as an unknown option -/
+theorem classify_unknown_long_eq (tbl : List Act) (r v : Str) (hr : '=' ∉ r)
+    (hsp : (('-' :: '-' :: (r ++ '=' :: v)).contains ' ') = false)
+    (hpre : ∀ p ∈ optTable tbl, startsWith p.1 ('-' :: '-' :: r) = false) :
+    classify tbl ('-' :: '-' :: (r ++ '=' :: v)) =
+      .ok (.O none ('-' :: '-' :: (r ++ '=' :: v)) none) := by
+  have hsplit : splitEq ('-' :: '-' :: (r ++ '=' :: v)) = some ('-' :: '-' :: r, v) := by
+    have := splitEq_append ('-' :: '-' :: r) v (by
+      simp only [List.mem_cons, not_or]
+      exact ⟨by decide, by decide, hr⟩)
+    simpa using this
+  have hl : (optTable tbl).lookup ('-' :: '-' :: (r ++ '=' :: v)) = none := by
+    apply lookup_none_of_forall
+    intro p hp hh
+    have h1 := hpre p hp
+    have h2 := startsWith_append_self ('-' :: '-' :: r) ('=' :: v)
+    rw [hh] at h1
+    simp only [List.cons_append] at h2
+    rw [h2] at h1
+    cases h1
+  have hl2 : (optTable tbl).lookup ('-' :: '-' :: r) = none := by
+    apply lookup_none_of_forall
+    intro p hp hh
+    have := hpre p hp
+    rw [hh, startsWith_self] at this
+    cases this
+  have hot : optionTuples (optTable tbl) ('-' :: '-' :: (r ++ '=' :: v)) = [] := by
+    simp only [optionTuples, hsplit]
+    rw [List.map_eq_nil_iff, List.filter_eq_nil_iff]
+    intro p hp
+    simp [hpre p hp]
+  unfold classify
+  simp only [hl, hsplit, hl2, hot, looksNegNumber_dd, hsp]
+  simp
+
+/-- **C10 (no other spelling, `=` form).** `--r=v` is never accepted either when `--r` is a prefix
+    of no option string of any action. -/
+theorem c10_no_other_spelling_eq (fenv : FEnv) (tbl : List Act) (cs : List Nat)
+    (pre post : List Str) (r v : Str) (hr : '=' ∉ r)
+    (hdd : ∀ x ∈ pre, x ≠ ['-', '-'])
+    (hsp : (('-' :: '-' :: (r ++ '=' :: v)).contains ' ') = false)
+    (hpre : ∀ a ∈ tbl, ∀ o ∈ a.opts, startsWith o ('-' :: '-' :: r) = false)
+    (ns : List (Str × Val)) (ex : List Str) (cs' : List Nat) :
+    runStrict fenv tbl cs (pre ++ ('-' :: '-' :: (r ++ '=' :: v)) :: post) ≠ .ok ns ex cs' := by
+  have hc := classify_unknown_long_eq tbl r v hr hsp (by
+    intro p hp
+    obtain ⟨a, ha, ho⟩ := mem_optTable tbl p hp
+    exact hpre a ha p.1 ho)
+  have hne : ('-' :: '-' :: (r ++ '=' :: v)) ≠ ['-', '-'] := by
+    intro h
+    simp at h
+  cases hlex : lexAll tbl (pre ++ ('-' :: '-' :: (r ++ '=' :: v)) :: post) with
+  | error e =>
+    unfold runStrict run
+    rw [hlex]
+    simp
+  | ok toks =>
+    have hm := lexAll_mem tbl pre post _ _ hdd hne hc toks hlex
+    exact C04.c04_unknown_rejected fenv tbl cs _ toks hlex ⟨_, hm, _, _, rfl⟩ ns ex cs'
+
+/-- non-vacuity: `--a-b=3` is rejected by a parser that only knows `--a_b` -/
+example : ∀ ns ex cs', runStrict []
+    [ helpAct,
+      { opts := ["--a_b".toList], dest := "c.a_b".toList, kind := .store, nargs := .one, conv := .base .int,
+        choices := none, required := false, default := some (.sc (.int 0)) } ] [0, 0]
+    (["--a-b=3".toList]) ≠ .ok ns ex cs' := by
+  intro ns ex cs'
+  exact c10_no_other_spelling_eq [] _ [0, 0] [] [] "a-b".toList "3".toList (by decide) (by simp)
+    (by decide) (by decide) ns ex cs'
+
+/-! ### The composite over the table simple-parsing builds for a flat dataclass -/
+
+/-- the `FieldWrapper` data of field `f` of a dataclass registered at `dest` (as in `Fields.fieldAct`) -/
+def fwOf (dest : Str) (f : FieldSpec) : FW :=
+  { name := f.name, pref := [], dest := dest ++ '.' :: f.name, aliases := f.aliases }
+
+/-- the negative option strings of a boolean field (none for every other field) -/
+def negsOf (cfg : Cfg) (dest : Str) (f : FieldSpec) : List Str :=
+  match argOptions f with
+  | some ao =>
+    if ao.isBool then (negStrings (optionStrings cfg (fwOf dest f)) "--no".toList none []).getD [] else []
+  | none => []
+
+theorem fieldAct_opts (cfg : Cfg) (dest : Str) (f : FieldSpec) (a : Act)
+    (h : fieldAct cfg dest f = some a) (o : Str) :
+    o ∈ a.opts ↔ (Spec cfg (fwOf dest f) o ∨ o ∈ negsOf cfg dest f) := by
+  unfold fieldAct at h
+  cases hao : argOptions f with
+  | none => simp [hao] at h
+  | some ao =>
+    simp only [hao, Option.map_some, Option.some.injEq] at h
+    subst h
+    simp only [List.mem_append, negsOf, hao]
+    rw [← c10_optionStrings_iff cfg (fwOf dest f) rfl]
+    rfl
+
+theorem tableOf_mem (cfg : Cfg) (dest : Str) (fs : List FieldSpec) (tbl : List Act)
+    (h : tableOf cfg dest fs = some tbl) (a : Act) (ha : a ∈ tbl) :
+    a = helpAct ∨ ∃ f ∈ fs, fieldAct cfg dest f = some a := by
+  unfold tableOf at h
+  cases hm : fs.mapM (fieldAct cfg dest) with
+  | none => simp [hm] at h
+  | some acts =>
+    simp only [hm, Option.map_some, Option.some.injEq] at h
+    subst h
+    rcases List.mem_cons.mp ha with rfl | hmem
+    · exact Or.inl rfl
+    · exact Or.inr (C04.mapM_mem _ fs acts hm a hmem)
+
+/-- **C10 (no other spelling, for the table of a dataclass).** For the parser simple-parsing builds
+    for a flat dataclass (`tableOf`: built-in help + one action per field whose option strings are
+    `optionStrings cfg …`), in every one of the 18 mode combinations: a long spelling `--r` that is
+    a prefix of `--help`, of no spelling the rule `Spec` allows for any field, and of no negative
+    flag string, is never accepted — wherever it stands on the command line. -/
+theorem c10_flat_no_other_spelling (fenv : FEnv) (cfg : Cfg) (dest : Str) (fs : List FieldSpec)
+    (tbl : List Act) (htbl : tableOf cfg dest fs = some tbl) (cs : List Nat)
+    (pre post : List Str) (r : Str) (hr : r ≠ [])
+    (hdd : ∀ x ∈ pre, x ≠ ['-', '-'])
+    (heq : splitEq ('-' :: '-' :: r) = none)
+    (hsp : (('-' :: '-' :: r).contains ' ') = false)
+    (hhelp : startsWith "--help".toList ('-' :: '-' :: r) = false)
+    (hspec : ∀ f ∈ fs, ∀ o, (Spec cfg (fwOf dest f) o ∨ o ∈ negsOf cfg dest f) →
+      startsWith o ('-' :: '-' :: r) = false)
+    (ns : List (Str × Val)) (ex : List Str) (cs' : List Nat) :
+    runStrict fenv tbl cs (pre ++ ('-' :: '-' :: r) :: post) ≠ .ok ns ex cs' := by
+  apply c10_no_other_spelling fenv tbl cs pre post r hr hdd heq hsp
+  intro a ha o ho
+  rcases tableOf_mem cfg dest fs tbl htbl a ha with rfl | ⟨f, hf, hfa⟩
+  · simp only [helpAct, List.mem_cons, List.not_mem_nil, or_false] at ho
+    rcases ho with rfl | rfl
+    · simp [startsWith]
+    · exact hhelp
+  · exact hspec f hf o ((fieldAct_opts cfg dest f a hfa o).mp ho)
+
+/-- the same for the `--r=v` form -/
+theorem c10_flat_no_other_spelling_eq (fenv : FEnv) (cfg : Cfg) (dest : Str) (fs : List FieldSpec)
+    (tbl : List Act) (htbl : tableOf cfg dest fs = some tbl) (cs : List Nat)
+    (pre post : List Str) (r v : Str) (hr : '=' ∉ r)
+    (hdd : ∀ x ∈ pre, x ≠ ['-', '-'])
+    (hsp : (('-' :: '-' :: (r ++ '=' :: v)).contains ' ') = false)
+    (hhelp : startsWith "--help".toList ('-' :: '-' :: r) = false)
+    (hspec : ∀ f ∈ fs, ∀ o, (Spec cfg (fwOf dest f) o ∨ o ∈ negsOf cfg dest f) →
+      startsWith o ('-' :: '-' :: r) = false)
+    (ns : List (Str × Val)) (ex : List Str) (cs' : List Nat) :
+    runStrict fenv tbl cs (pre ++ ('-' :: '-' :: (r ++ '=' :: v)) :: post) ≠ .ok ns ex cs' := by
+  apply c10_no_other_spelling_eq fenv tbl cs pre post r v hr hdd hsp
+  intro a ha o ho
+  rcases tableOf_mem cfg dest fs tbl htbl a ha with rfl | ⟨f, hf, hfa⟩
+  · simp only [helpAct, List.mem_cons, List.not_mem_nil, or_false] at ho
+    rcases ho with rfl | rfl
+    · simp [startsWith]
+    · exact hhelp
+  · exact hspec f hf o ((fieldAct_opts cfg dest f a hfa o).mp ho)
+
+
+/-! ### "every accepted spelling sets the same field" (review item 1) -/
+
+theorem lookup_map_opts (opts : List Str) (i : Nat) (o : Str) :
+    (opts.map (fun x => (x, i))).lookup o = if o ∈ opts then some i else none := by
+  induction opts with
+  | nil => simp
+  | cons x xs ih =>
+    by_cases h : o = x
+    · subst h; simp
+    · have : (o == x) = false := by simpa using h
+      simp only [List.map_cons, List.lookup, this, ih, List.mem_cons, h, false_or]
+
+theorem optTable_lookup_aux (tbl : List Act) : ∀ (k i : Nat) (a : Act) (o : Str),
+    tbl[i]? = some a → o ∈ a.opts → (∀ j < i, ∀ b, tbl[j]? = some b → o ∉ b.opts) →
+    ((tbl.zipIdx k).flatMap (fun (p : Act × Nat) => p.1.opts.map (fun o => (o, p.2)))).lookup o
+      = some (k + i) := by
+  induction tbl with
+  | nil => intro k i a o ha; simp at ha
+  | cons b bs ih =>
+    intro k i a o ha ho hfirst
+    simp only [List.zipIdx_cons, List.flatMap_cons, List.lookup_append, lookup_map_opts]
+    cases i with
+    | zero =>
+      simp only [List.getElem?_cons_zero, Option.some.injEq] at ha
+      subst ha
+      simp [ho]
+    | succ i' =>
+      have hb : o ∉ b.opts := hfirst 0 (by omega) b (by simp)
+      simp only [hb, ↓reduceIte, Option.none_or]
+      rw [ih (k + 1) i' a o (by simpa using ha) ho (fun j hj c hc =>
+        hfirst (j + 1) (by omega) c (by simpa using hc))]
+      congr 1
+      omega
+
+/-- argparse's `_option_string_actions[o]` is the FIRST action carrying `o` -/
+theorem optTable_lookup_first (tbl : List Act) (i : Nat) (a : Act) (o : Str)
+    (ha : tbl[i]? = some a) (ho : o ∈ a.opts)
+    (hfirst : ∀ j < i, ∀ b, tbl[j]? = some b → o ∉ b.opts) :
+    (optTable tbl).lookup o = some i := by
+  have := optTable_lookup_aux tbl 0 i a o ha ho hfirst
+  simpa [optTable] using this
+
+/-- no action other than (possibly) number `i` is required or has a string default that `type=`
+    would rewrite after the parse — true of every table whose fields have non-string defaults -/
+def QuietExcept (tbl : List Act) (i : Nat) : Prop :=
+  ∀ p ∈ tbl.zipIdx, p.2 = i ∨ (p.1.required = false ∧ ∀ s, p.1.default ≠ some (.sc (.str s)))
+
+/-- the command line of ONE occurrence: `o tok` (`eq = false`) or `o=tok` (`eq = true`) -/
+def occ (o tok : Str) (eq : Bool) : List Str := if eq then [o ++ '=' :: tok] else [o, tok]
+
+/-- what the value token must satisfy in each spelling: spaced — argparse lexes it as an argument
+    (e.g. it does not start with `-`); `=` form — ANY token, the option string has no `=` and
+    `o=tok` is not itself an option string -/
+def TokOk (tbl : List Act) (o tok : Str) : Bool → Prop
+  | false => ArgTok tbl tok
+  | true => '=' ∉ o ∧ (optTable tbl).lookup (o ++ '=' :: tok) = none
+
+/-- one decimal token through an `int` action: the closure counters are untouched -/
+theorem getValuesList_int (fenv : FEnv) (a : Act) (ha : a.conv = .base .int) (hc : a.choices = none)
+    (i : Nat) (cs' : List Nat) (tok : Str) (v : Int) (hp : parseInt tok = .ok (.int v)) :
+    getValuesList fenv a i cs' [tok] = .ok ([.int v], cs') := by
+  simp [getValuesList, getValue, ha, hc, Conv.apply, BConv.apply, hp]
+
+theorem tokOk_of_nodash (tbl : List Act) (o tok : Str) (h : NoDash tok) : TokOk tbl o tok false :=
+  argTok_of_nodash tbl tok h
+
+/-- **C10 (an accepted spelling sets its field).** Any table, any position `i` of a one-value
+    `store` action with a stateless `type=`: the command line `o tok` or `o=tok`, where `o` is ANY
+    of the action's option strings (not shadowed by an earlier action — "no name clash" —, and not
+    the bare separator `--`) and `tok` converts to `v`, is accepted and the namespace is the
+    initial one with exactly `act.dest := v`. -/
+theorem c10_spelling_sets_field (fenv : FEnv) (tbl : List Act) (cs : List Nat) (i : Nat) (act : Act)
+    (o tok : Str) (v : Scalar) (eq : Bool)
+    (hal : C04.Aligned tbl cs)
+    (hact : tbl[i]? = some act) (hk : act.kind = .store) (hn : act.nargs = .one)
+    (hstateless : ∀ bs, act.conv ≠ .tupleCounter bs)
+    (ho : o ∈ act.opts) (hfirst : ∀ j < i, ∀ b, tbl[j]? = some b → o ∉ b.opts)
+    (hdash : ∃ r, o = '-' :: r) (hsep : o ≠ ['-', '-'])
+    (htok : TokOk tbl o tok eq)
+    (hconv : ∀ cs', getValuesList fenv act i cs' [tok] = .ok ([v], cs'))
+    (hquiet : QuietExcept tbl i) :
+    runStrict fenv tbl cs (occ o tok eq) = .ok (setKey (initNs tbl) act.dest (.sc v)) [] cs := by
+  have hsc : ∀ cs', C02.segCounters tbl cs' ⟨i, o, [tok]⟩ = cs' := by
+    intro cs'
+    simp only [C02.segCounters, hact]
+  have key := C02.c02_engine_roundtrip fenv tbl cs [⟨⟨i, o, [tok]⟩, [v], eq⟩] hal
+    (by
+      intro w hw
+      simp only [List.mem_cons, List.not_mem_nil, or_false] at hw
+      subst hw
+      refine ⟨optTable_lookup_first tbl i act o hact ho hfirst, hdash, hsep, ?_, ?_⟩
+      · intro he t ht
+        simp only [C02.VSeg.eseg, List.mem_cons, List.not_mem_nil, or_false] at ht
+        subst ht
+        cases eq with
+        | false => exact htok
+        | true => simp [C02.VSeg.eseg, ESeg.eqTok] at he
+      · intro t ht
+        cases eq with
+        | false => simp [C02.VSeg.eseg, ESeg.eqTok] at ht
+        | true =>
+          simp only [C02.VSeg.eseg, ESeg.eqTok, Option.some.injEq] at ht
+          subst ht
+          exact htok)
+    (by
+      intro w hw
+      simp only [List.mem_cons, List.not_mem_nil, or_false] at hw
+      subst hw
+      refine ⟨act, hact, Or.inl hk, by rw [hn]; rfl, ?_⟩
+      intro cs' _
+      show getValuesList fenv act i cs' [tok] = .ok ([v], C02.segCounters tbl cs' ⟨i, o, [tok]⟩)
+      rw [hsc cs']
+      exact hconv cs')
+    (by
+      intro p hp
+      rcases hquiet p hp with h | ⟨hreq, hdef⟩
+      · left; exact ⟨⟨⟨i, o, [tok]⟩, [v], eq⟩, by simp, h.symm⟩
+      · right
+        exact ⟨hreq, fun s hs => absurd hs (hdef s)⟩)
+  have hrender : render' ([(⟨⟨i, o, [tok]⟩, [v], eq⟩ : C02.VSeg)].map (·.eseg)) = occ o tok eq := by
+    cases eq <;> simp [render', renderESeg, ESeg.eqTok, C02.VSeg.eseg, renderSeg, occ]
+  rw [hrender] at key
+  rw [key]
+  simp [C02.storeAll, hact, C02.storedVal, hk, hn, segVal, C02.countersAll, hsc]
+
+/-- **C10 (every accepted spelling sets the SAME field).** Two spellings `o₁`, `o₂` of one action,
+    each in either form (`o tok` / `o=tok`), give the same result, and that result differs from the
+    defaults at the action's destination and nowhere else. -/
+theorem c10_same_field (fenv : FEnv) (tbl : List Act) (cs : List Nat) (i : Nat) (act : Act)
+    (o₁ o₂ tok : Str) (v : Scalar) (eq₁ eq₂ : Bool)
+    (hal : C04.Aligned tbl cs)
+    (hact : tbl[i]? = some act) (hk : act.kind = .store) (hn : act.nargs = .one)
+    (hstateless : ∀ bs, act.conv ≠ .tupleCounter bs)
+    (ho₁ : o₁ ∈ act.opts) (hfirst₁ : ∀ j < i, ∀ b, tbl[j]? = some b → o₁ ∉ b.opts)
+    (hdash₁ : ∃ r, o₁ = '-' :: r) (hsep₁ : o₁ ≠ ['-', '-'])
+    (ho₂ : o₂ ∈ act.opts) (hfirst₂ : ∀ j < i, ∀ b, tbl[j]? = some b → o₂ ∉ b.opts)
+    (hdash₂ : ∃ r, o₂ = '-' :: r) (hsep₂ : o₂ ≠ ['-', '-'])
+    (htok₁ : TokOk tbl o₁ tok eq₁) (htok₂ : TokOk tbl o₂ tok eq₂)
+    (hconv : ∀ cs', getValuesList fenv act i cs' [tok] = .ok ([v], cs'))
+    (hquiet : QuietExcept tbl i) :
+    runStrict fenv tbl cs (occ o₁ tok eq₁) = runStrict fenv tbl cs (occ o₂ tok eq₂) ∧
+    ∃ ns, runStrict fenv tbl cs (occ o₁ tok eq₁) = .ok ns [] cs ∧
+      ns.lookup act.dest = some (.sc v) ∧
+      ∀ d, d ≠ act.dest → ns.lookup d = (initNs tbl).lookup d := by
+  have h₁ := c10_spelling_sets_field fenv tbl cs i act o₁ tok v eq₁ hal hact hk hn hstateless ho₁ hfirst₁
+    hdash₁ hsep₁ htok₁ hconv hquiet
+  have h₂ := c10_spelling_sets_field fenv tbl cs i act o₂ tok v eq₂ hal hact hk hn hstateless ho₂ hfirst₂
+    hdash₂ hsep₂ htok₂ hconv hquiet
+  refine ⟨by rw [h₁, h₂], _, h₁, C02.lookup_setKey_same _ _ _, ?_⟩
+  intro d hd
+  exact C02.lookup_setKey_other _ _ _ _ hd
+
+theorem dashFor_cases (x : Str) : dashFor x = ['-'] ∨ dashFor x = ['-', '-'] := by
+  unfold dashFor
+  split
+  · exact Or.inl rfl
+  · exact Or.inr rfl
+
+theorem aliasPair_fst (pref a : Str) :
+    (aliasPair pref a).1 = ['-'] ∨ (aliasPair pref a).1 = ['-', '-'] := by
+  unfold aliasPair
+  split
+  · exact Or.inr rfl
+  · exact Or.inl rfl
+  · exact dashFor_cases _
+
+/-- every spelling the rule allows starts with a dash -/
+theorem spec_dash (cfg : Cfg) (fw : FW) (o : Str) (h : Spec cfg fw o) : ∃ r, o = '-' :: r := by
+  obtain ⟨src, _, (⟨d, hd, rfl⟩ | ⟨_, _, rfl⟩)⟩ := h
+  · have hd' : d = ['-'] ∨ d = ['-', '-'] := by
+      rcases src with _ | _ | a
+      · simp only [dashesOf] at hd
+        split at hd <;> simp at hd <;> tauto
+      · simp only [dashesOf] at hd
+        split at hd <;> simp at hd <;> tauto
+      · simp only [dashesOf, List.mem_cons, List.not_mem_nil, or_false] at hd
+        rw [hd]; exact aliasPair_fst _ _
+    rcases hd' with rfl | rfl <;> exact ⟨_, rfl⟩
+  · rcases dashFor_cases (dashify (body cfg fw src)) with h | h <;> rw [h] <;> exact ⟨_, rfl⟩
+
+theorem tableOf_head (cfg : Cfg) (dest : Str) (fs : List FieldSpec) (tbl : List Act)
+    (h : tableOf cfg dest fs = some tbl) : tbl[0]? = some helpAct := by
+  unfold tableOf at h
+  cases hm : fs.mapM (fieldAct cfg dest) with
+  | none => simp [hm] at h
+  | some acts =>
+    simp only [hm, Option.map_some, Option.some.injEq] at h
+    subst h
+    rfl
+
+/-- **C10 (an accepted spelling sets its field — for the parser of a flat dataclass).**
+    `tableOf cfg dest fs` in any of the 18 mode combinations; field `i` a one-value non-boolean
+    field with a stateless `type=`.  EVERY spelling `o` the rule `Spec` allows for that field — flat
+    name, nested path, alias, dashed variant — that clashes with no earlier field's spellings (nor
+    `-h`, `--help`) and is not the bare separator `--`, written `o tok` or `o=tok` with a token
+    converting to `v`, is accepted and stores `v` at `dest.name` and nowhere else. -/
+theorem c10_flat_spelling_sets_field (fenv : FEnv) (cfg : Cfg) (dest : Str) (fs : List FieldSpec)
+    (tbl : List Act) (htbl : tableOf cfg dest fs = some tbl) (cs : List Nat) (hal : C04.Aligned tbl cs)
+    (i : Nat) (hi : i < fs.length) (ao : ArgOpts) (hao : argOptions fs[i] = some ao)
+    (hbool : ao.isBool = false) (hn : ao.nargs = .one) (hstateless : ∀ bs, ao.conv ≠ .tupleCounter bs)
+    (o tok : Str) (v : Scalar) (eq : Bool)
+    (hspec : Spec cfg (fwOf dest fs[i]) o)
+    (hhelp : o ∉ helpAct.opts)
+    (hclash : ∀ j (hj : j < i), ¬ (Spec cfg (fwOf dest fs[j]) o ∨ o ∈ negsOf cfg dest fs[j]))
+    (hsep : o ≠ ['-', '-'])
+    (htok : TokOk tbl o tok eq)
+    (hconv : ∀ a, tbl[i + 1]? = some a → ∀ cs', getValuesList fenv a (i + 1) cs' [tok] = .ok ([v], cs'))
+    (hquiet : QuietExcept tbl (i + 1)) :
+    runStrict fenv tbl cs (occ o tok eq) =
+      .ok (setKey (initNs tbl) (dest ++ '.' :: fs[i].name) (.sc v)) [] cs := by
+  obtain ⟨a, hfa, hta⟩ := C02.tableOf_get cfg dest fs tbl htbl i hi
+  obtain ⟨a', hfa', hkind, hdest, hnargs, hcv, _⟩ := C02.fieldAct_store cfg dest fs[i] ao hao hbool
+  rw [hfa] at hfa'
+  cases hfa'
+  have ho : o ∈ a.opts := (fieldAct_opts cfg dest fs[i] a hfa o).mpr (Or.inl hspec)
+  have hfirst : ∀ j < i + 1, ∀ b, tbl[j]? = some b → o ∉ b.opts := by
+    intro j hj b hb
+    cases j with
+    | zero =>
+      rw [tableOf_head cfg dest fs tbl htbl] at hb
+      cases hb
+      exact hhelp
+    | succ j' =>
+      have hj' : j' < i := by omega
+      obtain ⟨b', hfb, htb⟩ := C02.tableOf_get cfg dest fs tbl htbl j' (by omega)
+      rw [htb] at hb
+      cases hb
+      intro hob
+      exact hclash j' hj' ((fieldAct_opts cfg dest fs[j'] b hfb o).mp hob)
+  have := c10_spelling_sets_field fenv tbl cs (i + 1) a o tok v eq hal hta hkind (by rw [hnargs, hn])
+    (by rw [hcv]; exact hstateless) ho hfirst (spec_dash cfg _ o hspec) hsep htok (hconv a hta) hquiet
+  rw [this, hdest]
+
+/-! ### Aliases, in the property's words (review item 3): declared aliases are accepted as declared
+    in EVERY mode (DASH does not touch them), with their own number of dashes -/
+
+theorem aliasPair_2dash (pref n : Str) : aliasPair pref ('-' :: '-' :: n) = (['-', '-'], pref ++ n) := by
+  simp [aliasPair]
+
+theorem aliasPair_1dash (pref n : Str) (h : n.head? ≠ some '-') :
+    aliasPair pref ('-' :: n) = (['-'], pref ++ n) := by
+  cases n with
+  | nil => simp [aliasPair]
+  | cons c cs =>
+    have hc : c ≠ '-' := by simpa using h
+    unfold aliasPair
+    split
+    · rename_i heq
+      simp only [List.cons.injEq, true_and] at heq
+      exact absurd heq.1 hc
+    · rename_i heq
+      simp only [List.cons.injEq, true_and] at heq
+      rw [heq]
+    · rename_i h1 h2
+      exact absurd rfl (h2 _)
+
+theorem aliasPair_0dash (pref a : Str) (h : a.head? ≠ some '-') :
+    aliasPair pref a = (dashFor a, pref ++ a) := by
+  cases a with
+  | nil => simp [aliasPair]
+  | cons c cs =>
+    have hc : c ≠ '-' := by simpa using h
+    unfold aliasPair
+    split
+    · rename_i heq
+      simp only [List.cons.injEq] at heq
+      exact absurd heq.1 hc
+    · rename_i heq
+      simp only [List.cons.injEq] at heq
+      exact absurd heq.1 hc
+    · rfl
+
+/-- whatever the modes, the (dash, name) pair of every declared alias is offered -/
+theorem alias_mem_optionList (cfg : Cfg) (fw : FW) (hpos : fw.positional = false) (a : Str)
+    (ha : a ∈ fw.aliases) :
+    (aliasPair fw.pref a).1 ++ (aliasPair fw.pref a).2 ∈ optionList cfg fw := by
+  rw [c10_exact cfg fw hpos]
+  refine ⟨.alias a, (mem_sources _ _ _).mpr (Or.inr (Or.inr ⟨a, ha, rfl⟩)), Or.inl ⟨_, ?_, rfl⟩⟩
+  simp [dashesOf]
+
+/-- an alias declared with two dashes is accepted exactly as declared — in all 18 mode
+    combinations, DASH included (aliases are never rewritten) -/
+theorem c10_alias_2dash_kept (cfg : Cfg) (fw : FW) (hpos : fw.positional = false)
+    (hp : fw.pref = []) (n : Str) (ha : ('-' :: '-' :: n) ∈ fw.aliases) :
+    ('-' :: '-' :: n) ∈ optionList cfg fw := by
+  have := alias_mem_optionList cfg fw hpos _ ha
+  simpa [aliasPair_2dash, hp] using this
+
+/-- an alias declared with one dash is accepted exactly as declared, in every mode -/
+theorem c10_alias_1dash_kept (cfg : Cfg) (fw : FW) (hpos : fw.positional = false)
+    (hp : fw.pref = []) (n : Str) (hn : n.head? ≠ some '-') (ha : ('-' :: n) ∈ fw.aliases) :
+    ('-' :: n) ∈ optionList cfg fw := by
+  have := alias_mem_optionList cfg fw hpos _ ha
+  simpa [aliasPair_1dash _ _ hn, hp] using this
+
+/-- an alias declared without dashes gets `-` if it is one letter, `--` otherwise, in every mode -/
+theorem c10_alias_0dash (cfg : Cfg) (fw : FW) (hpos : fw.positional = false)
+    (hp : fw.pref = []) (a : Str) (hn : a.head? ≠ some '-') (ha : a ∈ fw.aliases) :
+    (dashFor a ++ a) ∈ optionList cfg fw := by
+  have := alias_mem_optionList cfg fw hpos _ ha
+  simpa [aliasPair_0dash _ _ hn, hp] using this
+
+theorem dashify_length (s : Str) : (dashify s).length = s.length := by simp [dashify]
+
+theorem dashFor_dashify (s : Str) : dashFor (dashify s) = dashFor s := by
+  simp [dashFor, dashify_length]
+
+/-- under UNDERSCORE_AND_DASH the dashed variant of every alias pair is offered -/
+theorem alias_variant_mem_optionList (gen : Gen) (nest : Nest) (fw : FW) (hpos : fw.positional = false)
+    (a : Str) (ha : a ∈ fw.aliases) (hu : hasUnderscore (aliasPair fw.pref a).2 = true) :
+    dashFor (aliasPair fw.pref a).2 ++ dashify (aliasPair fw.pref a).2 ∈
+      optionList ⟨.both, gen, nest⟩ fw := by
+  rw [c10_exact _ fw hpos]
+  refine ⟨.alias a, (mem_sources _ _ _).mpr (Or.inr (Or.inr ⟨a, ha, rfl⟩)), Or.inr ⟨rfl, hu, ?_⟩⟩
+  simp [body, dashFor_dashify]
+
+/-- UNDERSCORE_AND_DASH: a two-dash alias `--x_y` is also accepted as `--x-y` -/
+theorem c10_alias_both_variant_2dash (gen : Gen) (nest : Nest) (fw : FW) (hpos : fw.positional = false)
+    (hp : fw.pref = []) (n : Str) (ha : ('-' :: '-' :: n) ∈ fw.aliases)
+    (hu : hasUnderscore n = true) (hl : n.length ≠ 1) :
+    ('-' :: '-' :: dashify n) ∈ optionList ⟨.both, gen, nest⟩ fw := by
+  have := alias_variant_mem_optionList gen nest fw hpos _ ha (by simpa [aliasPair_2dash, hp] using hu)
+  simpa [aliasPair_2dash, hp, dashFor, hl] using this
+
+/-- UNDERSCORE_AND_DASH: a dash-less alias `x_y` (accepted as `--x_y`) is also accepted as `--x-y` -/
+theorem c10_alias_both_variant_0dash (gen : Gen) (nest : Nest) (fw : FW) (hpos : fw.positional = false)
+    (hp : fw.pref = []) (a : Str) (hn : a.head? ≠ some '-') (ha : a ∈ fw.aliases)
+    (hu : hasUnderscore a = true) (hl : a.length ≠ 1) :
+    ('-' :: '-' :: dashify a) ∈ optionList ⟨.both, gen, nest⟩ fw := by
+  have := alias_variant_mem_optionList gen nest fw hpos _ ha (by simpa [aliasPair_0dash _ _ hn, hp] using hu)
+  simpa [aliasPair_0dash _ _ hn, hp, dashFor, hl] using this
+
+/-- What the code does with a ONE-dash multi-letter alias `-x_y` under UNDERSCORE_AND_DASH: the
+    variant is given TWO dashes (`--x-y`), because the dash count of a variant is recomputed from
+    its length (field_wrapper.py:641-645) — see the open finding `C10-short-alias-variant`. -/
+theorem c10_alias_1dash_variant_actual (gen : Gen) (nest : Nest) (fw : FW) (hpos : fw.positional = false)
+    (hp : fw.pref = []) (n : Str) (hn : n.head? ≠ some '-') (ha : ('-' :: n) ∈ fw.aliases)
+    (hu : hasUnderscore n = true) (hl : n.length ≠ 1) :
+    ('-' :: '-' :: dashify n) ∈ optionList ⟨.both, gen, nest⟩ fw := by
+  have := alias_variant_mem_optionList gen nest fw hpos _ ha (by simpa [aliasPair_1dash _ _ hn, hp] using hu)
+  simpa [aliasPair_1dash _ _ hn, hp, dashFor, hl] using this
+
+/-- the documented expectation ("the same number of dashes will be used", option_strings docstring;
+    "UNDERSCORE_AND_DASH accepts both spellings for names and aliases"): the dashed variant of a
+    one-dash alias keeps its single dash -/
+def AliasVariantKeepsDashes : Prop :=
+  ∀ (gen : Gen) (nest : Nest) (fw : FW) (n : Str), fw.positional = false → fw.pref = [] →
+    n.head? ≠ some '-' → ('-' :: n) ∈ fw.aliases → hasUnderscore n = true →
+    ('-' :: dashify n) ∈ optionList ⟨.both, gen, nest⟩ fw
+
+/-- the code does not satisfy it: alias `-v_w` yields `-v_w` and `--v-w`, never `-v-w` -/
+theorem c10_alias_variant_witness : ¬ AliasVariantKeepsDashes := by
+  intro h
+  have := h .flat .default
+    { name := "alpha".toList, pref := [], dest := "c.alpha".toList, aliases := ["-v_w".toList] }
+    "v_w".toList rfl rfl (by decide) (by decide) (by decide)
+  revert this
+  decide
+
+/-- `_partial`: for aliases that are NOT one-dash (named exclusion: two leading dashes, or none and
+    more than one letter) the variant keeps the dashes of the declared spelling — this is
+    `c10_alias_both_variant_2dash` / `c10_alias_both_variant_0dash`, restated on the declared
+    spelling `decl` and its dashed twin `dashify decl` -/
+theorem c10_alias_variant_partial (gen : Gen) (nest : Nest) (fw : FW) (hpos : fw.positional = false)
+    (hp : fw.pref = []) (a : Str) (ha : a ∈ fw.aliases) (hu : hasUnderscore a = true)
+    (hnot1 : (∃ n, a = '-' :: '-' :: n ∧ n.length ≠ 1) ∨ (a.head? ≠ some '-' ∧ a.length ≠ 1)) :
+    ∃ decl, decl ∈ optionList ⟨.both, gen, nest⟩ fw ∧ dashify decl ∈ optionList ⟨.both, gen, nest⟩ fw ∧
+      (decl = a ∨ decl = '-' :: '-' :: a) := by
+  rcases hnot1 with ⟨n, rfl, hl⟩ | ⟨hn, hl⟩
+  · have hu' : hasUnderscore n = true := by
+      simpa [hasUnderscore] using hu
+    refine ⟨'-' :: '-' :: n, c10_alias_2dash_kept _ fw hpos hp n ha, ?_, Or.inl rfl⟩
+    have := c10_alias_both_variant_2dash gen nest fw hpos hp n ha hu' hl
+    simpa [dashify] using this
+  · refine ⟨'-' :: '-' :: a, ?_, ?_, Or.inr rfl⟩
+    · have := c10_alias_0dash ⟨.both, gen, nest⟩ fw hpos hp a hn ha
+      simpa [dashFor, hl] using this
+    · have := c10_alias_both_variant_0dash gen nest fw hpos hp a hn ha hu hl
+      simpa [dashify] using this
+
+theorem hasUnderscore_append (a b : Str) :
+    hasUnderscore (a ++ b) = (hasUnderscore a || hasUnderscore b) := by
+  simp [hasUnderscore]
+
+/-- DASH: an accepted option string that still contains an underscore is a declared alias, offered
+    as declared (`c10_dash_alias_kept`); every generated spelling is underscore-free. -/
+theorem c10_dash_alias_kept (gen : Gen) (nest : Nest) (fw : FW) (hpos : fw.positional = false)
+    (s : Str) (hs : s ∈ optionList ⟨.dashOnly, gen, nest⟩ fw) (hu : hasUnderscore s = true) :
+    ∃ a ∈ fw.aliases, s = (aliasPair fw.pref a).1 ++ (aliasPair fw.pref a).2 := by
+  rw [c10_exact _ fw hpos] at hs
+  obtain ⟨src, hsrc, (⟨d, hd, rfl⟩ | ⟨hb, _, _⟩)⟩ := hs
+  · rcases src with _ | _ | a
+    · exfalso
+      have hd' : hasUnderscore d = false := by
+        simp only [dashesOf] at hd
+        split at hd <;> simp at hd <;> rcases hd with rfl | rfl <;> decide
+      rw [hasUnderscore_append, hd'] at hu
+      simp only [body, genSpell, ↓reduceIte, Bool.false_or] at hu
+      rw [dashify_no_underscore] at hu
+      cases hu
+    · exfalso
+      have hd' : hasUnderscore d = false := by
+        simp only [dashesOf] at hd
+        split at hd <;> simp at hd <;> rcases hd with rfl | rfl <;> decide
+      rw [hasUnderscore_append, hd'] at hu
+      simp only [body, genSpell, ↓reduceIte, Bool.false_or] at hu
+      rw [dashify_no_underscore] at hu
+      cases hu
+    · obtain ⟨a', ha', heq⟩ := ((mem_sources _ _ _).mp hsrc).resolve_left (by simp) |>.resolve_left (by simp)
+      cases heq
+      simp only [dashesOf, List.mem_cons, List.not_mem_nil, or_false] at hd
+      exact ⟨a, ha', by rw [hd]; rfl⟩
+  · cases hb
+
+/-- DASH (restating `c10_dash_generated_no_underscore` on the option strings themselves): without
+    aliases NO accepted option string contains an underscore -/
+theorem c10_dash_option_no_underscore (gen : Gen) (nest : Nest) (fw : FW) (hpos : fw.positional = false)
+    (hal : fw.aliases = []) (s : Str) (hs : s ∈ optionList ⟨.dashOnly, gen, nest⟩ fw) :
+    hasUnderscore s = false := by
+  cases hu : hasUnderscore s with
+  | false => rfl
+  | true =>
+    obtain ⟨a, ha, _⟩ := c10_dash_alias_kept gen nest fw hpos s hs hu
+    rw [hal] at ha
+    cases ha
+
+
+/-! ### Explicit option lists for DASH and UNDERSCORE_AND_DASH (review item 4) -/
+
+/-- DASH + FLAT: the only option is `--<name with dashes>` -/
+theorem c10_dash_flat (fw : FW) (nest : Nest) (hpos : fw.positional = false)
+    (hlen : fw.name.length ≠ 1) (hal : fw.aliases = []) :
+    optionList ⟨.dashOnly, .flat, nest⟩ fw = [['-', '-'] ++ dashify (fw.pref ++ fw.name)] := by
+  simp [optionList, hpos, basePairs, extraPairs, candidates, flatCand, dashFor, hlen, hal]
+
+/-- DASH + NESTED: the only option is `--<path with dashes>` -/
+theorem c10_dash_nested (fw : FW) (nest : Nest) (hpos : fw.positional = false)
+    (hlen : fw.name.length ≠ 1) (hal : fw.aliases = []) :
+    optionList ⟨.dashOnly, .nested, nest⟩ fw =
+      [['-', '-'] ++ dashify (nestedPath ⟨.dashOnly, .nested, nest⟩ fw)] := by
+  cases nest <;>
+    simp [optionList, hpos, basePairs, extraPairs, candidates, nestedCand, dashFor, hlen, hal, nestedPath]
+
+/-- UNDERSCORE_AND_DASH + FLAT, a name with an underscore: exactly the two spellings -/
+theorem c10_both_flat (fw : FW) (nest : Nest) (hpos : fw.positional = false) (hp : fw.pref = [])
+    (hlen : fw.name.length ≠ 1) (hal : fw.aliases = []) (hu : hasUnderscore fw.name = true) :
+    optionList ⟨.both, .flat, nest⟩ fw =
+      [['-', '-'] ++ fw.name, ['-', '-'] ++ dashify fw.name] := by
+  simp [optionList, hpos, basePairs, extraPairs, candidates, flatCand, dashFor, hlen, hal, hp, hu,
+    dashify_length]
+
+/-- UNDERSCORE_AND_DASH + FLAT, a name without underscore: just `--name` -/
+theorem c10_both_flat_plain (fw : FW) (nest : Nest) (hpos : fw.positional = false) (hp : fw.pref = [])
+    (hlen : fw.name.length ≠ 1) (hal : fw.aliases = []) (hu : hasUnderscore fw.name = false) :
+    optionList ⟨.both, .flat, nest⟩ fw = [['-', '-'] ++ fw.name] := by
+  simp [optionList, hpos, basePairs, extraPairs, candidates, flatCand, dashFor, hlen, hal, hp, hu]
+
+/-- a one-letter name `c` (not `_`) in FLAT mode: `-c` and `--c`, whatever the dash variant -/
+theorem c10_one_letter_flat (dash : Dash) (nest : Nest) (fw : FW) (c : Char) (hpos : fw.positional = false)
+    (hp : fw.pref = []) (hname : fw.name = [c]) (hc : c ≠ '_') (hal : fw.aliases = []) :
+    optionList ⟨dash, .flat, nest⟩ fw = [['-', c], ['-', '-', c]] := by
+  have hc' : ¬ '_' = c := fun h => hc h.symm
+  cases dash <;>
+    simp [optionList, hpos, basePairs, extraPairs, candidates, flatCand, dashFor, hal, hp, hname,
+      hasUnderscore, dashify, hc, hc']
+
+/-- UNDERSCORE_AND_DASH, in the rule's vocabulary (restating `c10_both_closed` on `optionList`):
+    every source offered with two dashes whose body is not one letter is accepted in BOTH
+    spellings, `--body` and `--<body with dashes>` -/
+theorem c10_both_spellings (gen : Gen) (nest : Nest) (fw : FW) (hpos : fw.positional = false)
+    (src : Src) (hsrc : src ∈ sources ⟨.both, gen, nest⟩ fw) (hd : ['-', '-'] ∈ dashesOf fw src)
+    (hl : (body ⟨.both, gen, nest⟩ fw src).length ≠ 1) :
+    (['-', '-'] ++ body ⟨.both, gen, nest⟩ fw src) ∈ optionList ⟨.both, gen, nest⟩ fw ∧
+    (['-', '-'] ++ dashify (body ⟨.both, gen, nest⟩ fw src)) ∈ optionList ⟨.both, gen, nest⟩ fw := by
+  have h1 : (['-', '-'] ++ body ⟨.both, gen, nest⟩ fw src) ∈ optionList ⟨.both, gen, nest⟩ fw := by
+    rw [c10_exact _ fw hpos]
+    exact ⟨src, hsrc, Or.inl ⟨_, hd, rfl⟩⟩
+  refine ⟨h1, ?_⟩
+  cases hu : hasUnderscore (body ⟨.both, gen, nest⟩ fw src) with
+  | false => rw [dashify_of_no_underscore _ hu]; exact h1
+  | true =>
+    rw [c10_exact _ fw hpos]
+    refine ⟨src, hsrc, Or.inr ⟨rfl, hu, ?_⟩⟩
+    simp [dashFor, dashify_length, hl]
+
+/-- … for the field's own name: `--n` and `--<n with dashes>` are both accepted (FLAT or BOTH) -/
+theorem c10_both_name_spellings (gen : Gen) (nest : Nest) (fw : FW) (hpos : fw.positional = false)
+    (hp : fw.pref = []) (hg : gen ≠ .nested) (hlen : fw.name.length ≠ 1) :
+    (['-', '-'] ++ fw.name) ∈ optionList ⟨.both, gen, nest⟩ fw ∧
+    (['-', '-'] ++ dashify fw.name) ∈ optionList ⟨.both, gen, nest⟩ fw := by
+  have := c10_both_spellings gen nest fw hpos .flatName
+    ((mem_sources _ _ _).mpr (Or.inl ⟨rfl, hg⟩)) (by simp [dashesOf, hlen])
+    (by simpa [body, genSpell, hp] using hlen)
+  simpa [body, genSpell, hp] using this
+
+/-- … and for the nested path `d` (NESTED or BOTH): `--d` and `--<d with dashes>` -/
+theorem c10_both_path_spellings (gen : Gen) (nest : Nest) (fw : FW) (hpos : fw.positional = false)
+    (hg : gen ≠ .flat) (hlen : fw.name.length ≠ 1)
+    (hl : (nestedPath ⟨.both, gen, nest⟩ fw).length ≠ 1) :
+    (['-', '-'] ++ nestedPath ⟨.both, gen, nest⟩ fw) ∈ optionList ⟨.both, gen, nest⟩ fw ∧
+    (['-', '-'] ++ dashify (nestedPath ⟨.both, gen, nest⟩ fw)) ∈ optionList ⟨.both, gen, nest⟩ fw := by
+  have := c10_both_spellings gen nest fw hpos .nestedName
+    ((mem_sources _ _ _).mpr (Or.inr (Or.inl ⟨rfl, hg⟩))) (by simp [dashesOf, hlen])
+    (by simpa [body, genSpell] using hl)
+  simpa [body, genSpell] using this
+
+/-! ### Open finding `C10-separator-option`: a field (or alias) spelled `_` registers the bare `--` -/
+
+/-- what one expects: a field with a non-empty name that does not start with a dash never registers
+    argparse's separator `--` as one of its option strings -/
+def SeparatorFree : Prop :=
+  ∀ (cfg : Cfg) (fw : FW), fw.positional = false → fw.pref = [] → fw.aliases = [] → cfg.gen = .flat →
+    fw.name ≠ [] → fw.name.head? ≠ some '-' → ['-', '-'] ∉ optionList cfg fw
+
+/-- the code does not satisfy it: the field `_` under UNDERSCORE_AND_DASH gets `-_`, `--_` and `--` -/
+theorem c10_separator_witness : ¬ SeparatorFree := by
+  intro h
+  have := h ⟨.both, .flat, .default⟩
+    { name := "_".toList, pref := [], dest := "c._".toList, aliases := [] } rfl rfl rfl rfl
+    (by decide) (by decide)
+  revert this
+  decide
+
+theorem dashify_eq_nil (s : Str) (h : dashify s = []) : s = [] := by
+  cases s with
+  | nil => rfl
+  | cons c cs => simp [dashify] at h
+
+theorem dashify_eq_dash (s : Str) (h : dashify s = ['-']) : s = ['_'] ∨ s = ['-'] := by
+  cases s with
+  | nil => simp [dashify] at h
+  | cons c cs =>
+    cases cs with
+    | cons _ _ => simp [dashify] at h
+    | nil =>
+      by_cases hc : c = '_'
+      · left; rw [hc]
+      · right
+        simp only [dashify, List.map_cons, hc, ↓reduceIte, List.map_nil, List.cons.injEq, and_true] at h
+        rw [h]
+
+/-- `_partial`, named exclusion `fw.name ≠ "_"`: every other name is separator-free, in all modes -/
+theorem c10_separator_partial (cfg : Cfg) (fw : FW) (hpos : fw.positional = false) (hp : fw.pref = [])
+    (hal : fw.aliases = []) (hg : cfg.gen = .flat) (hne : fw.name ≠ [])
+    (hhead : fw.name.head? ≠ some '-') (hexcl : fw.name ≠ ['_']) :
+    ['-', '-'] ∉ optionList cfg fw := by
+  intro hmem
+  rw [c10_exact cfg fw hpos] at hmem
+  obtain ⟨src, hsrc, hrest⟩ := hmem
+  have hsrc' : src = .flatName := by
+    rcases (mem_sources _ _ _).mp hsrc with ⟨h, _⟩ | ⟨_, h⟩ | ⟨a, ha, _⟩
+    · exact h
+    · exact absurd hg h
+    · rw [hal] at ha; cases ha
+  subst hsrc'
+  have hnd : fw.name ≠ ['-'] := by
+    intro h; rw [h] at hhead; exact hhead rfl
+  -- the body is the name, or its dashed spelling
+  have hbody : body cfg fw .flatName = fw.name ∨ body cfg fw .flatName = dashify fw.name := by
+    simp only [body, genSpell, hp, List.nil_append]
+    split
+    · exact Or.inr rfl
+    · exact Or.inl rfl
+  -- neither the body nor its dashed spelling is empty or a lone dash
+  have hb0 : ∀ b : Str, (b = fw.name ∨ b = dashify fw.name) → b ≠ [] ∧ b ≠ ['-'] := by
+    rintro b (rfl | rfl)
+    · exact ⟨hne, hnd⟩
+    · refine ⟨fun h => hne (dashify_eq_nil _ h), fun h => ?_⟩
+      rcases dashify_eq_dash _ h with h' | h'
+      · exact hexcl h'
+      · exact hnd h'
+  have key : ∀ (d b : Str), (d = ['-'] ∨ d = ['-', '-']) → b ≠ [] → b ≠ ['-'] → ['-', '-'] ≠ d ++ b := by
+    rintro d b (rfl | rfl) h0 h1 h
+    · simp only [List.cons_append, List.nil_append, List.cons.injEq, true_and] at h
+      exact h1 h.symm
+    · simp only [List.cons_append, List.nil_append, List.cons.injEq, true_and] at h
+      exact h0 h.symm
+  rcases hrest with ⟨d, hd, heq⟩ | ⟨_, _, heq⟩
+  · have hd' : d = ['-'] ∨ d = ['-', '-'] := by
+      simp only [dashesOf] at hd
+      split at hd <;> simp at hd <;> tauto
+    obtain ⟨h0, h1⟩ := hb0 _ hbody
+    exact key d _ hd' h0 h1 heq
+  · have hb2 : dashify (body cfg fw .flatName) = fw.name ∨
+        dashify (body cfg fw .flatName) = dashify fw.name := by
+      rcases hbody with h | h
+      · rw [h]; exact Or.inr rfl
+      · rw [h, dashify_idem]; exact Or.inr rfl
+    obtain ⟨h0, h1⟩ := hb0 _ hb2
+    exact key _ _ (dashFor_cases _) h0 h1 heq
+
+/-- …and `--` is a DEAD spelling: the table of the one-field dataclass `_: int = 1` under
+    UNDERSCORE_AND_DASH carries `--` among the field's option strings, yet `-- 7` does not set the
+    field (argparse reads `--` as the separator; `7` is left over).  So the exclusion `o ≠ "--"` of
+    `c10_spelling_sets_field` / `c10_flat_spelling_sets_field` cannot be dropped. -/
+theorem c10_same_field_separator_witness :
+    ∃ tbl, tableOf ⟨.both, .flat, .default⟩ "c".toList
+        [{ name := "_".toList, ty := { inner := .sc (.base .int), optional := false },
+           default := .value (.sc (.int 1)) }] = some tbl ∧
+      (∃ a, tbl[1]? = some a ∧ ['-', '-'] ∈ a.opts) ∧
+      runStrict [] tbl [0, 0] ["--".toList, "7".toList] = .exit 2 .unrecognized := by
+  refine ⟨_, rfl, ⟨_, rfl, by decide +kernel⟩, by decide +kernel⟩
+
+
+/-! ### non-vacuity of the new theorems: a concrete dataclass `a_b: int = 0 (alias -q); k: int = 5`
+    registered at `c`, under UNDERSCORE_AND_DASH / FLAT -/
+
+def demoCfg : Cfg := ⟨.both, .flat, .default⟩
+
+def demoFs : List FieldSpec :=
+  [ { name := "a_b".toList, ty := { inner := .sc (.base .int), optional := false },
+      default := .value (.sc (.int 0)), aliases := ["-q".toList] },
+    { name := "k".toList, ty := { inner := .sc (.base .int), optional := false },
+      default := .value (.sc (.int 5)) } ]
+
+def demoTbl : List Act :=
+  [ helpAct,
+    { opts := ["-q".toList, "--a_b".toList, "--a-b".toList], dest := "c.a_b".toList, kind := .store,
+      nargs := .one, conv := .base .int, choices := none, required := false, default := some (.sc (.int 0)) },
+    { opts := ["-k".toList, "--k".toList], dest := "c.k".toList, kind := .store,
+      nargs := .one, conv := .base .int, choices := none, required := false, default := some (.sc (.int 5)) } ]
+
+theorem demo_table : tableOf demoCfg "c".toList demoFs = some demoTbl := by decide +kernel
+
+theorem demo_quiet (i : Nat) : QuietExcept demoTbl i := by
+  intro p hp
+  right
+  simp only [demoTbl, List.zipIdx_cons, List.zipIdx_nil, List.mem_cons, List.not_mem_nil, or_false] at hp
+  rcases hp with rfl | rfl | rfl <;> exact ⟨rfl, fun s h => by cases h⟩
+
+theorem demo_spec (o : Str) :
+    (Spec demoCfg (fwOf "c".toList demoFs[0]) o ∨ o ∈ negsOf demoCfg "c".toList demoFs[0]) ↔
+      o ∈ ["--a_b".toList, "-q".toList, "--a-b".toList] := by
+  have h1 : optionList demoCfg (fwOf "c".toList demoFs[0]) =
+      ["--a_b".toList, "-q".toList, "--a-b".toList] := by decide
+  have h2 : negsOf demoCfg "c".toList demoFs[0] = [] := by decide +kernel
+  rw [← c10_exact demoCfg _ rfl, h1, h2]
+  simp
+
+theorem demo_spec1 (o : Str) :
+    (Spec demoCfg (fwOf "c".toList demoFs[1]) o ∨ o ∈ negsOf demoCfg "c".toList demoFs[1]) ↔
+      o ∈ ["-k".toList, "--k".toList] := by
+  have h1 : optionList demoCfg (fwOf "c".toList demoFs[1]) = ["-k".toList, "--k".toList] := by decide
+  have h2 : negsOf demoCfg "c".toList demoFs[1] = [] := by decide +kernel
+  rw [← c10_exact demoCfg _ rfl, h1, h2]
+  simp
+
+/-- `c10_flat_no_other_spelling`: `--a.b 3 …` is rejected by that parser -/
+example : ∀ ns ex cs', runStrict [] demoTbl [0, 0, 0] ["--k".toList, "1".toList, "--a.b".toList, "3".toList]
+    ≠ .ok ns ex cs' := by
+  intro ns ex cs'
+  refine c10_flat_no_other_spelling [] demoCfg "c".toList demoFs demoTbl demo_table [0, 0, 0]
+    ["--k".toList, "1".toList] ["3".toList] "a.b".toList (by decide) (by decide) (by decide) (by decide)
+    (by decide) ?_ ns ex cs'
+  intro f hf o ho
+  simp only [demoFs, List.mem_cons, List.not_mem_nil, or_false] at hf
+  rcases hf with rfl | rfl
+  · have := (demo_spec o).mp ho
+    simp only [List.mem_cons, List.not_mem_nil, or_false] at this
+    rcases this with rfl | rfl | rfl <;> decide
+  · have := (demo_spec1 o).mp ho
+    simp only [List.mem_cons, List.not_mem_nil, or_false] at this
+    rcases this with rfl | rfl <;> decide
+
+/-- `c10_flat_no_other_spelling_eq`: so is `--A_B=3` -/
+example : ∀ ns ex cs', runStrict [] demoTbl [0, 0, 0] ["--A_B=3".toList] ≠ .ok ns ex cs' := by
+  intro ns ex cs'
+  refine c10_flat_no_other_spelling_eq [] demoCfg "c".toList demoFs demoTbl demo_table [0, 0, 0]
+    [] [] "A_B".toList "3".toList (by decide) (by decide) (by decide) (by decide) ?_ ns ex cs'
+  intro f hf o ho
+  simp only [demoFs, List.mem_cons, List.not_mem_nil, or_false] at hf
+  rcases hf with rfl | rfl
+  · have := (demo_spec o).mp ho
+    simp only [List.mem_cons, List.not_mem_nil, or_false] at this
+    rcases this with rfl | rfl | rfl <;> decide
+  · have := (demo_spec1 o).mp ho
+    simp only [List.mem_cons, List.not_mem_nil, or_false] at this
+    rcases this with rfl | rfl <;> decide
+
+theorem demo_aligned : C04.Aligned demoTbl [0, 0, 0] := C04.aligned_zeros demoTbl
+
+/-- `c10_same_field`: `--a_b 3` and `--a-b=3` set `c.a_b`, and only it -/
+example : runStrict [] demoTbl [0, 0, 0] ["--a_b".toList, "3".toList] =
+      runStrict [] demoTbl [0, 0, 0] ["--a-b=3".toList] ∧
+    ∃ ns, runStrict [] demoTbl [0, 0, 0] ["--a_b".toList, "3".toList] = .ok ns [] [0, 0, 0] ∧
+      ns.lookup "c.a_b".toList = some (.sc (.int 3)) ∧
+      ∀ d, d ≠ "c.a_b".toList → ns.lookup d = (initNs demoTbl).lookup d :=
+  c10_same_field [] demoTbl [0, 0, 0] 1 demoTbl[1] "--a_b".toList "--a-b".toList "3".toList (.int 3)
+    false true demo_aligned rfl rfl rfl (by intro bs h; cases h)
+    (by decide) (by decide) ⟨_, rfl⟩ (by decide) (by decide) (by decide) ⟨_, rfl⟩ (by decide)
+    (tokOk_of_nodash _ _ _ (by simp [NoDash])) ⟨by decide, by decide⟩
+    (fun cs' => getValuesList_int _ _ rfl rfl _ _ _ 3 (by decide +kernel)) (demo_quiet 1)
+
+/-- `c10_flat_spelling_sets_field`: every spelling of field 0 allowed by `Spec` — here the dashed
+    variant `--a-b`, in the `=` form with a NEGATIVE value — stores at `c.a_b` -/
+example : runStrict [] demoTbl [0, 0, 0] ["--a-b=-3".toList] =
+    .ok (setKey (initNs demoTbl) "c.a_b".toList (.sc (.int (-3)))) [] [0, 0, 0] :=
+  c10_flat_spelling_sets_field [] demoCfg "c".toList demoFs demoTbl demo_table [0, 0, 0] demo_aligned
+    0 (by decide) _ rfl rfl rfl (by intro bs h; cases h) "--a-b".toList "-3".toList (.int (-3)) true
+    ((demo_spec _).mpr (by decide) |>.resolve_right (by decide +kernel))
+    (by decide) (fun j hj => (Nat.not_lt_zero j hj).elim) (by decide) ⟨by decide, by decide⟩
+    (fun a ha cs' => by cases ha; exact getValuesList_int _ _ rfl rfl _ _ _ (-3) (by decide +kernel))
+    (demo_quiet 1)
+
+/-- `c10_optionStrings_iff` at work: the sorted, de-duplicated list of field 0 -/
+example : optionStrings demoCfg (fwOf "c".toList demoFs[0]) =
+    ["-q".toList, "--a_b".toList, "--a-b".toList] := by decide
+
+
+/-! ### …discharged for the universe the check enumerates: dataclasses of `int` fields with defaults -/
+
+/-- `name: int = d` -/
+def IntField (f : FieldSpec) : Prop :=
+  f.ty = { inner := .sc (.base .int), optional := false } ∧ ∃ d, f.default = .value (.sc (.int d))
+
+theorem argOptions_int (f : FieldSpec) (h : IntField f) :
+    ∃ d, argOptions f = some { nargs := .one, conv := .base .int, choices := none, required := false,
+                               default := .sc (.int d), isBool := false } := by
+  obtain ⟨hty, d, hd⟩ := h
+  refine ⟨d, ?_⟩
+  simp [argOptions, hty, hd, defaultVal, bconvOf]
+
+theorem negsOf_int (cfg : Cfg) (dest : Str) (f : FieldSpec) (h : IntField f) : negsOf cfg dest f = [] := by
+  obtain ⟨d, hao⟩ := argOptions_int f h
+  simp [negsOf, hao]
+
+theorem tableOf_int_quiet (cfg : Cfg) (dest : Str) (fs : List FieldSpec) (tbl : List Act)
+    (htbl : tableOf cfg dest fs = some tbl) (hint : ∀ f ∈ fs, IntField f) (i : Nat) :
+    QuietExcept tbl i := by
+  rintro ⟨a, j⟩ hp
+  right
+  have ha : a ∈ tbl := by
+    have := (List.mem_zipIdx hp).2.2
+    rw [this]
+    exact List.getElem_mem _
+  rcases tableOf_mem cfg dest fs tbl htbl a ha with rfl | ⟨f, hf, hfa⟩
+  · exact ⟨rfl, fun s h => by cases h⟩
+  · obtain ⟨d, hao⟩ := argOptions_int f (hint f hf)
+    obtain ⟨a', hfa', _, _, _, _, _, hreq, hdef⟩ := C02.fieldAct_store cfg dest f _ hao rfl
+    rw [hfa] at hfa'
+    cases hfa'
+    exact ⟨hreq, fun s h => by rw [hdef] at h; cases h⟩
+
+/-- **C10 (every accepted spelling sets the same field — dataclasses of int fields).** For ANY flat
+    dataclass whose fields are `int`s with defaults (any number of fields, names, aliases), in any
+    of the 18 mode combinations: every spelling `o` the rule allows for field `i` that the rule
+    allows for no earlier field, is not `-h` / `--help` and is not the bare `--`, written `o tok`
+    or `o=tok` with a decimal token, is accepted; the result is the default namespace with
+    `dest.name := v` and nothing else changed.  (No hypothesis about the engine is left.) -/
+theorem c10_int_dataclass_same_field (fenv : FEnv) (cfg : Cfg) (dest : Str) (fs : List FieldSpec)
+    (tbl : List Act) (htbl : tableOf cfg dest fs = some tbl) (hint : ∀ f ∈ fs, IntField f)
+    (cs : List Nat) (hal : C04.Aligned tbl cs) (i : Nat) (hi : i < fs.length) (o tok : Str) (v : Int)
+    (eq : Bool)
+    (hspec : Spec cfg (fwOf dest fs[i]) o)
+    (hhelp : o ∉ helpAct.opts)
+    (hclash : ∀ j (hj : j < i), ¬ Spec cfg (fwOf dest fs[j]) o)
+    (hsep : o ≠ ['-', '-'])
+    (htok : TokOk tbl o tok eq) (hparse : parseInt tok = .ok (.int v)) :
+    runStrict fenv tbl cs (occ o tok eq) =
+      .ok (setKey (initNs tbl) (dest ++ '.' :: fs[i].name) (.sc (.int v))) [] cs := by
+  obtain ⟨d, hao⟩ := argOptions_int fs[i] (hint _ (List.getElem_mem _))
+  refine c10_flat_spelling_sets_field fenv cfg dest fs tbl htbl cs hal i hi _ hao rfl rfl
+    (by intro bs h; cases h) o tok (.int v) eq hspec hhelp ?_ hsep htok ?_
+    (tableOf_int_quiet cfg dest fs tbl htbl hint (i + 1))
+  · intro j hj hor
+    have hjl : j < fs.length := by omega
+    rw [negsOf_int cfg dest fs[j] (hint _ (List.getElem_mem _))] at hor
+    simp only [List.not_mem_nil, or_false] at hor
+    exact hclash j hj hor
+  · intro a ha cs'
+    obtain ⟨a0, hfa, hta⟩ := C02.tableOf_get cfg dest fs tbl htbl i hi
+    rw [hta] at ha
+    cases ha
+    obtain ⟨a', hfa', _, _, _, hconv, hch, _, _⟩ := C02.fieldAct_store cfg dest fs[i] _ hao rfl
+    rw [hfa] at hfa'
+    cases hfa'
+    exact getValuesList_int fenv _ hconv hch _ _ _ _ hparse
+
+/-- **C10 (no other spelling — dataclasses of int fields)**: a long spelling that is a prefix of
+    `--help` and of no spelling the rule allows for any field is never accepted (both forms) -/
+theorem c10_int_dataclass_no_other_spelling (fenv : FEnv) (cfg : Cfg) (dest : Str) (fs : List FieldSpec)
+    (tbl : List Act) (htbl : tableOf cfg dest fs = some tbl) (hint : ∀ f ∈ fs, IntField f) (cs : List Nat)
+    (pre post : List Str) (r : Str) (hr : r ≠ [])
+    (hdd : ∀ x ∈ pre, x ≠ ['-', '-'])
+    (heq : splitEq ('-' :: '-' :: r) = none)
+    (hsp : (('-' :: '-' :: r).contains ' ') = false)
+    (hhelp : startsWith "--help".toList ('-' :: '-' :: r) = false)
+    (hspec : ∀ f ∈ fs, ∀ o, Spec cfg (fwOf dest f) o → startsWith o ('-' :: '-' :: r) = false)
+    (ns : List (Str × Val)) (ex : List Str) (cs' : List Nat) :
+    runStrict fenv tbl cs (pre ++ ('-' :: '-' :: r) :: post) ≠ .ok ns ex cs' ∧
+    ∀ v, (('-' :: '-' :: (r ++ '=' :: v)).contains ' ') = false →
+      runStrict fenv tbl cs (pre ++ ('-' :: '-' :: (r ++ '=' :: v)) :: post) ≠ .ok ns ex cs' := by
+  have hspec' : ∀ f ∈ fs, ∀ o, (Spec cfg (fwOf dest f) o ∨ o ∈ negsOf cfg dest f) →
+      startsWith o ('-' :: '-' :: r) = false := by
+    intro f hf o ho
+    rw [negsOf_int cfg dest f (hint f hf)] at ho
+    simp only [List.not_mem_nil, or_false] at ho
+    exact hspec f hf o ho
+  have hr' : '=' ∉ r := by
+    intro hmem
+    have : ∀ (a : Str), '=' ∈ a → splitEq a ≠ none := by
+      intro a
+      induction a with
+      | nil => intro h; cases h
+      | cons c cs ih =>
+        intro h
+        simp only [splitEq]
+        split
+        · simp
+        · rename_i hc
+          have : '=' ∈ cs := by
+            rcases List.mem_cons.mp h with h | h
+            · exact absurd h.symm hc
+            · exact h
+          cases hs : splitEq cs with
+          | none => exact absurd hs (ih this)
+          | some p => simp
+    exact this _ (by simp [hmem]) heq
+  exact ⟨c10_flat_no_other_spelling fenv cfg dest fs tbl htbl cs pre post r hr hdd heq hsp hhelp hspec' ns ex cs',
+    fun v hv => c10_flat_no_other_spelling_eq fenv cfg dest fs tbl htbl cs pre post r v hr' hdd hv hhelp hspec'
+      ns ex cs'⟩
+
+
+theorem demo_int : ∀ f ∈ demoFs, IntField f := by
+  intro f hf
+  simp only [demoFs, List.mem_cons, List.not_mem_nil, or_false] at hf
+  rcases hf with rfl | rfl <;> exact ⟨rfl, _, rfl⟩
+
+/-- `c10_int_dataclass_no_other_spelling`: `--a.b 3` and `--a.b=3` are rejected by the demo parser -/
+example : ∀ ns ex cs', runStrict [] demoTbl [0, 0, 0] ["--a.b".toList, "3".toList] ≠ .ok ns ex cs' ∧
+    runStrict [] demoTbl [0, 0, 0] ["--a.b=3".toList, "3".toList] ≠ .ok ns ex cs' := by
+  intro ns ex cs'
+  have h := c10_int_dataclass_no_other_spelling [] demoCfg "c".toList demoFs demoTbl demo_table demo_int
+    [0, 0, 0] [] ["3".toList] "a.b".toList (by decide) (by decide) (by decide) (by decide) (by decide)
+    (by
+      intro f hf o ho
+      simp only [demoFs, List.mem_cons, List.not_mem_nil, or_false] at hf
+      rcases hf with rfl | rfl
+      · have := (demo_spec o).mp (Or.inl ho)
+        simp only [List.mem_cons, List.not_mem_nil, or_false] at this
+        rcases this with rfl | rfl | rfl <;> decide
+      · have := (demo_spec1 o).mp (Or.inl ho)
+        simp only [List.mem_cons, List.not_mem_nil, or_false] at this
+        rcases this with rfl | rfl <;> decide) ns ex cs'
+  exact ⟨h.1, h.2 "3".toList (by decide)⟩
+
+/-- both spellings of `a_b` in the demo dataclass, via the discharged theorem, spaced and `=` form -/
+example : runStrict [] demoTbl [0, 0, 0] ["--a-b".toList, "12".toList] =
+      .ok (setKey (initNs demoTbl) "c.a_b".toList (.sc (.int 12))) [] [0, 0, 0] ∧
+    runStrict [] demoTbl [0, 0, 0] ["--a_b=-12".toList] =
+      .ok (setKey (initNs demoTbl) "c.a_b".toList (.sc (.int (-12)))) [] [0, 0, 0] :=
+  ⟨c10_int_dataclass_same_field [] demoCfg "c".toList demoFs demoTbl demo_table demo_int
+      [0, 0, 0] demo_aligned 0 (by decide) "--a-b".toList "12".toList 12 false
+      ((demo_spec _).mpr (by decide) |>.resolve_right (by decide +kernel))
+      (by decide) (fun j hj => (Nat.not_lt_zero j hj).elim) (by decide)
+      (tokOk_of_nodash _ _ _ (by simp [NoDash])) (by decide +kernel),
+   c10_int_dataclass_same_field [] demoCfg "c".toList demoFs demoTbl demo_table demo_int
+      [0, 0, 0] demo_aligned 0 (by decide) "--a_b".toList "-12".toList (-12) true
+      ((demo_spec _).mpr (by decide) |>.resolve_right (by decide +kernel))
+      (by decide) (fun j hj => (Nat.not_lt_zero j hj).elim) (by decide)
+      ⟨by decide, by decide⟩ (by decide +kernel)⟩
+
+-- aliases, in every mode
+example : "--al_pha".toList ∈ optionList ⟨.dashOnly, .nested, .withoutRoot⟩
+    { name := "x".toList, pref := [], dest := "c.m.x".toList, aliases := ["--al_pha".toList, "-z".toList, "zz".toList] } :=
+  c10_alias_2dash_kept _ _ rfl rfl "al_pha".toList (by decide)
+example : "-z".toList ∈ optionList ⟨.dashOnly, .nested, .withoutRoot⟩
+    { name := "x".toList, pref := [], dest := "c.m.x".toList, aliases := ["--al_pha".toList, "-z".toList, "zz".toList] } :=
+  c10_alias_1dash_kept _ _ rfl rfl "z".toList (by decide) (by decide)
+example : "--zz".toList ∈ optionList ⟨.dashOnly, .nested, .withoutRoot⟩
+    { name := "x".toList, pref := [], dest := "c.m.x".toList, aliases := ["--al_pha".toList, "-z".toList, "zz".toList] } :=
+  c10_alias_0dash _ _ rfl rfl "zz".toList (by decide) (by decide)
+example : "--al-pha".toList ∈ optionList ⟨.both, .flat, .default⟩
+    { name := "x".toList, pref := [], dest := "c.x".toList, aliases := ["--al_pha".toList] } :=
+  c10_alias_both_variant_2dash _ _ _ rfl rfl "al_pha".toList (by decide) (by decide) (by decide)
+example : "--y-y".toList ∈ optionList ⟨.both, .flat, .default⟩
+    { name := "x".toList, pref := [], dest := "c.x".toList, aliases := ["y_y".toList] } :=
+  c10_alias_both_variant_0dash _ _ _ rfl rfl "y_y".toList (by decide) (by decide) (by decide) (by decide)
+example : "--v-w".toList ∈ optionList ⟨.both, .flat, .default⟩
+    { name := "x".toList, pref := [], dest := "c.x".toList, aliases := ["-v_w".toList] } :=
+  c10_alias_1dash_variant_actual _ _ _ rfl rfl "v_w".toList (by decide) (by decide) (by decide) (by decide)
+example : ∃ decl, decl ∈ optionList ⟨.both, .flat, .default⟩
+      { name := "x".toList, pref := [], dest := "c.x".toList, aliases := ["y_y".toList] } ∧
+    dashify decl ∈ optionList ⟨.both, .flat, .default⟩
+      { name := "x".toList, pref := [], dest := "c.x".toList, aliases := ["y_y".toList] } ∧
+    (decl = "y_y".toList ∨ decl = '-' :: '-' :: "y_y".toList) :=
+  c10_alias_variant_partial _ _ _ rfl rfl "y_y".toList (by decide) (by decide) (Or.inr ⟨by decide, by decide⟩)
+example : ∃ a ∈ ["--al_pha".toList], "--al_pha".toList = (aliasPair [] a).1 ++ (aliasPair [] a).2 :=
+  c10_dash_alias_kept .flat .default
+    { name := "x_y".toList, pref := [], dest := "c.x_y".toList, aliases := ["--al_pha".toList] } rfl _
+    (by decide) (by decide)
+
+-- explicit lists
+example : optionList ⟨.dashOnly, .flat, .default⟩
+    { name := "a_b".toList, pref := [], dest := "c.a_b".toList, aliases := [] } = ["--a-b".toList] :=
+  c10_dash_flat _ _ rfl (by decide) rfl
+example : optionList ⟨.dashOnly, .nested, .withoutRoot⟩
+    { name := "a_b".toList, pref := [], dest := "c.sub_cfg.a_b".toList, aliases := [] } = ["--sub-cfg.a-b".toList] := by
+  rw [c10_dash_nested _ _ rfl (by decide) rfl]; decide
+example : optionList ⟨.both, .flat, .default⟩
+    { name := "a_b".toList, pref := [], dest := "c.a_b".toList, aliases := [] } = ["--a_b".toList, "--a-b".toList] :=
+  c10_both_flat _ _ rfl rfl (by decide) rfl (by decide)
+example : optionList ⟨.both, .flat, .default⟩
+    { name := "alpha".toList, pref := [], dest := "c.alpha".toList, aliases := [] } = ["--alpha".toList] :=
+  c10_both_flat_plain _ _ rfl rfl (by decide) rfl (by decide)
+example : optionList ⟨.dashOnly, .flat, .default⟩
+    { name := "n".toList, pref := [], dest := "c.n".toList, aliases := [] } = ["-n".toList, "--n".toList] :=
+  c10_one_letter_flat _ _ _ 'n' rfl rfl rfl (by decide) rfl
+example : "--sub_cfg.a_b".toList ∈ optionList ⟨.both, .both, .withoutRoot⟩
+      { name := "a_b".toList, pref := [], dest := "c.sub_cfg.a_b".toList, aliases := [] } ∧
+    "--sub-cfg.a-b".toList ∈ optionList ⟨.both, .both, .withoutRoot⟩
+      { name := "a_b".toList, pref := [], dest := "c.sub_cfg.a_b".toList, aliases := [] } := by
+  have := c10_both_path_spellings .both .withoutRoot
+    { name := "a_b".toList, pref := [], dest := "c.sub_cfg.a_b".toList, aliases := [] } rfl (by decide)
+    (by decide) (by decide)
+  exact ⟨by decide, by decide⟩
+example : "--a_b".toList ∈ optionList ⟨.both, .both, .default⟩
+      { name := "a_b".toList, pref := [], dest := "c.a_b".toList, aliases := [] } ∧
+    "--a-b".toList ∈ optionList ⟨.both, .both, .default⟩
+      { name := "a_b".toList, pref := [], dest := "c.a_b".toList, aliases := [] } :=
+  c10_both_name_spellings .both .default _ rfl rfl (by decide) (by decide)
+example : ['-', '-'] ∉ optionList ⟨.both, .flat, .default⟩
+    { name := "a_".toList, pref := [], dest := "c.a_".toList, aliases := [] } :=
+  c10_separator_partial _ _ rfl rfl rfl rfl (by decide) (by decide) (by decide)
+example : hasUnderscore "--a-b".toList = false :=
+  c10_dash_option_no_underscore .flat .default
+    { name := "a_b".toList, pref := [], dest := "c.a_b".toList, aliases := [] } rfl rfl _ (by decide)
 
 /-! ### non-vacuity / concrete instances -/
 
